@@ -11,6 +11,7 @@ from hypothesis import strategies as st
 from .. import gen, observe, ops
 from ..core import Violation
 from . import c01
+from ..cli import SUB
 
 ID = "C03"
 LEVEL = "exploration"
@@ -85,7 +86,8 @@ def cases(draw, tier):
             "import": draw(st.sampled_from(["lines", "stringio", "path",
                                             "path_nl", "gzip", "readlines",
                                             "convert_json",
-                                            "convert_hdf5"]))}
+                                            "convert_hdf5"])),
+            "sub": draw(st.sampled_from(SUB))}
 
 
 def strategy(tier):
@@ -129,17 +131,17 @@ def export(t, case, d):
         args += ["--header-key", "tax", "--output-metadata-id", col,
                  "--tsv-metadata-formatter",
                  "sc_separated" if md == "taxonomy" else "naive"]
-    run_click(convert, args)
+    run_click(convert, "convert", args, case.get("sub", False))
     with open(out, encoding="utf8") as f:
         return f.read()
 
 
-def run_click(cmd, args):
-    try:
-        cmd.main(args, standalone_mode=False)
-    except SystemExit as e:
-        if e.code not in (0, None):
-            raise Violation("cli-exit", "%s exited %r" % (args, e.code))
+def run_click(cmd, name, args, sub=False):
+    from ..cli import invoke
+    rc, out = invoke(cmd, name, args, sub)
+    if rc != 0:
+        raise Violation("cli-exit", "biom %s %s exited %r: %s" %
+                        (name, args, rc, out[-300:]))
 
 
 def importer(text, case, d):
@@ -185,7 +187,7 @@ def importer(text, case, d):
     if md != "none":
         args += ["--process-obs-metadata",
                  "taxonomy" if md == "taxonomy" else "naive"]
-    run_click(convert, args)
+    run_click(convert, "convert", args, case.get("sub", False))
     return load_table(out), how
 
 
@@ -255,4 +257,12 @@ REGRESSIONS = [
                "obs_md": None, "samp_md": None, "type": None, "form": "dense",
                "history": []},
      "md": "none", "colname": None, "export": "to_tsv", "import": "lines"},
+    # the real `biom convert` process, both directions
+    {"table": {"obs": ["o 1", "é2"], "samp": ["1", "s#2", "x"],
+               "rows": [[1e-7, 0.0, 2.5], [0.0, 3.0, 1e300]],
+               "obs_md": [{"tax": ["k__A", "p__B"], "other": "zz"},
+                          {"tax": ["k__C"], "other": "zz"}],
+               "samp_md": None, "type": None, "form": "dense", "history": []},
+     "md": "taxonomy", "colname": "taxonomy", "export": "convert",
+     "import": "convert_hdf5", "sub": True},
 ]
